@@ -469,6 +469,9 @@ func (f *ikFunc) check() {
 				fmt.Sprintf("index is %s as required", got),
 				fmt.Sprintf("%s is indexed by %s, which is an index in the %s space; this container is indexed by %s (the two index spaces differ, so the wrong element is addressed whenever they do not coincide)", types.ExprString(x.X), types.ExprString(x.Index), got, d.key))
 		case *ast.BinaryExpr:
+			if x.Op == token.ADD {
+				f.checkEndpointName(x, known)
+			}
 			switch x.Op {
 			case token.EQL, token.NEQ, token.LSS, token.GTR, token.LEQ, token.GEQ:
 				a, b := f.kindOf(x.X), f.kindOf(x.Y)
@@ -577,6 +580,86 @@ func (f *ikFunc) check() {
 		}
 		return true
 	})
+}
+
+// checkEndpointName (NAMEKIND): endpoint names are written "p<processor>i<n>", "p<processor>o<n>".
+// In a string concatenation, the number printed right after a literal "p" (or one ending in a
+// non-letter followed by p) must be a processor index — not a domain index, an endpoint position, …
+// The number is followed through strconv.Itoa and through a string local assigned once from it.
+func (f *ikFunc) checkEndpointName(x *ast.BinaryExpr, known func(ikind) bool) {
+	if p, ok := f.parents[x].(*ast.BinaryExpr); ok && p.Op == token.ADD {
+		return // not the top of the chain
+	}
+	t := f.info.TypeOf(x)
+	if t == nil {
+		return
+	}
+	if b, ok := t.Underlying().(*types.Basic); !ok || b.Info()&types.IsString == 0 {
+		return
+	}
+	var leaves []ast.Expr
+	flattenAdd(x, &leaves)
+	numOf := func(e ast.Expr, depth int) ast.Expr { return nil }
+	var numOfRec func(e ast.Expr, depth int) ast.Expr
+	numOfRec = func(e ast.Expr, depth int) ast.Expr {
+		switch v := ast.Unparen(e).(type) {
+		case *ast.CallExpr:
+			if c := core.CalleeOf(f.info, v); c != nil && c.Pkg() != nil && c.Pkg().Path() == "strconv" && c.Name() == "Itoa" && len(v.Args) == 1 {
+				return v.Args[0]
+			}
+		case *ast.Ident:
+			if depth > 2 {
+				return nil
+			}
+			o := f.info.ObjectOf(v)
+			var def ast.Expr
+			n := 0
+			ast.Inspect(f.fd.Body, func(m ast.Node) bool {
+				if as, ok := m.(*ast.AssignStmt); ok && len(as.Lhs) == len(as.Rhs) {
+					for i, l := range as.Lhs {
+						if id, ok := l.(*ast.Ident); ok && f.info.ObjectOf(id) == o {
+							n++
+							def = as.Rhs[i]
+						}
+					}
+				}
+				return true
+			})
+			if n == 1 {
+				return numOfRec(def, depth+1)
+			}
+		}
+		return nil
+	}
+	numOf = numOfRec
+	for i := 1; i < len(leaves); i++ {
+		lit, ok := constStr(f.info, leaves[i-1])
+		if !ok || lit == "" {
+			continue
+		}
+		if lit != "p" {
+			if !strings.HasSuffix(lit, "p") || len(lit) < 2 {
+				continue
+			}
+			c := lit[len(lit)-2]
+			if (c >= 'a' && c <= 'z') || (c >= 'A' && c <= 'Z') || (c >= '0' && c <= '9') || c == '_' {
+				continue
+			}
+		}
+		num := numOf(leaves[i], 0)
+		if num == nil {
+			continue
+		}
+		got := f.kindOf(num)
+		if !known(got) {
+			continue
+		}
+		f.e.nSinks++
+		f.e.nKnown++
+		f.report(compatible(got, "PROC"), "INDEXKIND", "name:p+"+types.ExprString(num), leaves[i].Pos(),
+			"the number in the processor name is a processor index",
+			fmt.Sprintf("the endpoint name built here prints %s after \"p\", and %s is an index in the %s space, not a processor index: the name denotes the endpoints of another processor (or of none) whenever the two numberings differ", types.ExprString(num), types.ExprString(num), got))
+	}
 }
 
 // run analyses every function of the given packages that mentions a kinded field.
